@@ -11,7 +11,7 @@ func init() {
 	props["C01"] = func(c *Ctx) {
 		c.Res.Rule = "case = storage capabilities (random subset of = != =~ !~ for labels and for lines) x log query AST (0-2 selector matchers; 0-5 stages of all 14 kinds: line filters incl. ip(), label predicates with and/or/parentheses over string/number/duration/bytes/ip comparisons, json/logfmt/regexp/pattern/unpack, line_format/label_format/drop/keep/decolorize, distinct) x 0-12 records (label alphabet c,d,a,zz,lvl,n x 16 values; lines from a vocabulary of words, k=v pairs, IPs, numbers, durations, sizes, non-UTF-8) x limit; evaluated through logql.Parse + Engine.Eval over a mock backend that applies exactly what it is handed; non-trivial = result neither empty nor everything, or an __error__ label is produced; distinct by request line"
 		spec := &Spec[LogCase]{
-			What:   "LogQL.entries/group == Engine.Eval over a capability-configurable backend",
+			What: "LogQL.entries/group == Engine.Eval over a capability-configurable backend",
 			Gen: func(r *rand.Rand) LogCase {
 				t := genLogCase(r, allStageKinds, 5, 12)
 				if r.Intn(10) == 0 {
